@@ -20,6 +20,7 @@
             PlainNewline = TRUE models the repaired plain-mode write_line (newline kept); FALSE the pinned code.
    TLC checks A => P: ScreenMatches / PlainAppend / NoControl are invariants of Spec.                       *)
 EXTENDS Naturals, Sequences, Terminal
+LOCAL INSTANCE SequencesExt       \* FoldLeft (iterative)
 
 CONSTANTS ClearCountsRows, PlainNewline
 
@@ -33,8 +34,7 @@ VARIABLES ansi,     \* BOOLEAN: the output decorates (ANSI) or not (plain); fixe
 vars == <<ansi, pre, content, plog, secs, term, last>>
 
 \* ------------------------------------------------------------------ P-layer
-RECURSIVE Concat(_)
-Concat(ss) == IF ss = <<>> THEN <<>> ELSE Head(ss) \o Concat(Tail(ss))
+Concat(ss) == FoldLeft(LAMBDA acc, x : acc \o x, <<>>, ss)
 
 PWrite(cs, i, ls) == [cs EXCEPT ![i] = @ \o ls]
 PClear(cs, i) == [cs EXCEPT ![i] = <<>>]
@@ -50,15 +50,12 @@ NoControl == ~ansi => OnlyPlain(last.ops)
 
 \* ------------------------------------------------------------------ A-layer
 Rows(line, w) == RowsNeeded(Len(line), w)                  \* ceil(len / width) or 1
-RECURSIVE SumRows(_, _)
-SumRows(ls, w) == IF ls = <<>> THEN 0 ELSE Rows(Head(ls), w) + SumRows(Tail(ls), w)
+SumRows(ls, w) == FoldLeft(LAMBDA acc, x : acc + Rows(x, w), 0, ls)
 RECURSIVE SumLines(_, _)
 SumLines(ss, from) == IF from > Len(ss) THEN 0 ELSE ss[from].lines + SumLines(ss, from + 1)
 
 \* string + "\n" for every line: an empty line is only the newline
-RECURSIVE Print(_)
-Print(ls) == IF ls = <<>> THEN <<>>
-             ELSE (IF Head(ls) = <<>> THEN <<OpLF>> ELSE <<OpText(Head(ls)), OpLF>>) \o Print(Tail(ls))
+Emitted(ls) == FoldLeft(LAMBDA acc, x : acc \o (IF x = <<>> THEN <<OpLF>> ELSE <<OpText(x), OpLF>>), <<>>, ls)
 
 \* _pop_stream_content_until_current_section(extra): move up over `extra` rows of this section and all rows of
 \* the newer sections, erase to the end of the screen; the erased content of the newer sections is re-printed
@@ -66,12 +63,12 @@ PopOps(ss, i, extra) == LET n == extra + SumLines(ss, i + 1) IN IF n > 0 THEN <<
 Below(ss, i) == Concat([k \in 1..(Len(ss) - i) |-> ss[i + k].content])
 
 AWrite(ss, i, ls, w) ==
-  [ops  |-> PopOps(ss, i, 0) \o Print(ls) \o Print(Below(ss, i)),
+  [ops  |-> PopOps(ss, i, 0) \o Emitted(ls) \o Emitted(Below(ss, i)),
    secs |-> [ss EXCEPT ![i] = [content |-> @.content \o ls, lines |-> @.lines + SumRows(ls, w)]]]
 
 AClear(ss, i) ==
   IF ss[i].content = <<>> THEN [ops |-> <<>>, secs |-> ss]
-  ELSE [ops  |-> PopOps(ss, i, ss[i].lines) \o Print(Below(ss, i)),
+  ELSE [ops  |-> PopOps(ss, i, ss[i].lines) \o Emitted(Below(ss, i)),
         secs |-> [ss EXCEPT ![i] = [content |-> <<>>, lines |-> 0]]]
 
 AClearN(ss, i, n, w) ==
@@ -81,7 +78,7 @@ AClearN(ss, i, n, w) ==
            gone == SubSeq(c, keep + 1, Len(c))
            rows == IF ClearCountsRows THEN SumRows(gone, w) ELSE n
            left == IF ss[i].lines >= rows THEN ss[i].lines - rows ELSE 0   \* (pinned code: may go negative)
-       IN [ops  |-> PopOps(ss, i, rows) \o Print(Below(ss, i)),
+       IN [ops  |-> PopOps(ss, i, rows) \o Emitted(Below(ss, i)),
            secs |-> [ss EXCEPT ![i] = [content |-> SubSeq(c, 1, keep), lines |-> left]]]
 
 AOverwrite(ss, i, ls, w) ==                                 \* clear(); write_line(message)
@@ -90,11 +87,8 @@ AOverwrite(ss, i, ls, w) ==                                 \* clear(); write_li
   IN [ops |-> a.ops \o b.ops, secs |-> b.secs]
 
 \* plain mode: the section degrades to an ordinary output; nothing is recorded, clears do nothing
-RECURSIVE PrintNoNL(_)
-PrintNoNL(ls) == IF ls = <<>> THEN <<>>
-                 ELSE (IF Head(ls) = <<>> THEN <<>> ELSE <<OpText(Head(ls))>>)
-                      \o (IF Len(ls) > 1 THEN <<OpLF>> ELSE <<>>) \o PrintNoNL(Tail(ls))
-PlainWrite(ss, ls) == [ops |-> IF PlainNewline THEN Print(ls) ELSE PrintNoNL(ls), secs |-> ss]
+EmittedNoNL(ls) == LET all == Emitted(ls) IN SubSeq(all, 1, Len(all) - 1)      \* "\n".join(lines)
+PlainWrite(ss, ls) == [ops |-> IF PlainNewline THEN Emitted(ls) ELSE EmittedNoNL(ls), secs |-> ss]
 PlainNothing(ss) == [ops |-> <<>>, secs |-> ss]
 
 \* ------------------------------------------------------------------ behaviours
@@ -103,13 +97,31 @@ Event(op, i, ls, n, ops) == [op |-> op, s |-> i, lines |-> ls, n |-> n, ops |-> 
 
 InitWith(w, a, p) ==
   /\ ansi = a /\ pre = p /\ content = <<>> /\ plog = <<>> /\ secs = <<>>
-  /\ term = ApplyOps(TermNew(w), Print(p))
-  /\ last = Event("init", 0, p, w, Print(p))
+  /\ term = ApplyOps(TermNew(w), Emitted(p))
+  /\ last = Event("init", 0, p, w, Emitted(p))
 
-Step(op, i, ls, n, pc, pl, a) ==
-  /\ content' = pc /\ plog' = pl /\ secs' = a.secs
-  /\ term' = ApplyOps(term, a.ops)
-  /\ last' = Event(op, i, ls, n, a.ops)
+\* what an operation does to the P-state (pc, pl) and what the A-layer emits / becomes (a) - one case table
+\* shared by the actions below and by SectionsTrace (which applies the *observed* ops to the terminal instead)
+InDomain(op, i, n) ==
+  /\ op \in {"write", "overwrite", "clear", "clearn"} /\ i \in 1..Len(secs)
+  /\ op = "clearn" => (n >= 1 /\ (ansi => n <= Len(content[i])))
+
+Effect(op, i, ls, n) ==
+  IF ansi THEN
+    CASE op = "write"     -> [pc |-> PWrite(content, i, ls),     pl |-> plog, a |-> AWrite(secs, i, ls, term.w)]
+      [] op = "overwrite" -> [pc |-> POverwrite(content, i, ls), pl |-> plog, a |-> AOverwrite(secs, i, ls, term.w)]
+      [] op = "clear"     -> [pc |-> PClear(content, i),         pl |-> plog, a |-> AClear(secs, i)]
+      [] op = "clearn"    -> [pc |-> PClearN(content, i, n),     pl |-> plog, a |-> AClearN(secs, i, n, term.w)]
+  ELSE
+    CASE op \in {"write", "overwrite"} -> [pc |-> content, pl |-> plog \o ls, a |-> PlainWrite(secs, ls)]
+      [] OTHER                         -> [pc |-> content, pl |-> plog,       a |-> PlainNothing(secs)]
+
+Do(op, i, ls, n) ==
+  /\ InDomain(op, i, n)
+  /\ LET e == Effect(op, i, ls, n) IN
+     /\ content' = e.pc /\ plog' = e.pl /\ secs' = e.a.secs
+     /\ term' = ApplyOps(term, e.a.ops)
+     /\ last' = Event(op, i, ls, n, e.a.ops)
   /\ UNCHANGED <<ansi, pre>>
 
 Create ==
@@ -117,22 +129,10 @@ Create ==
   /\ last' = Event("create", Len(secs) + 1, NoLines, 0, <<>>)
   /\ UNCHANGED <<ansi, pre, plog, term>>
 
-WriteLine(i, ls) ==
-  IF ansi THEN Step("write", i, ls, 0, PWrite(content, i, ls), plog, AWrite(secs, i, ls, term.w))
-  ELSE Step("write", i, ls, 0, content, plog \o ls, PlainWrite(secs, ls))
-
-Overwrite(i, ls) ==
-  IF ansi THEN Step("overwrite", i, ls, 0, POverwrite(content, i, ls), plog, AOverwrite(secs, i, ls, term.w))
-  ELSE Step("overwrite", i, ls, 0, content, plog \o ls, PlainWrite(secs, ls))
-
-Clear(i) ==
-  IF ansi THEN Step("clear", i, NoLines, 0, PClear(content, i), plog, AClear(secs, i))
-  ELSE Step("clear", i, NoLines, 0, content, plog, PlainNothing(secs))
-
-ClearN(i, n) ==
-  IF ansi THEN /\ n >= 1 /\ n <= Len(content[i])
-               /\ Step("clearn", i, NoLines, n, PClearN(content, i, n), plog, AClearN(secs, i, n, term.w))
-  ELSE n >= 1 /\ Step("clearn", i, NoLines, n, content, plog, PlainNothing(secs))
+WriteLine(i, ls) == Do("write", i, ls, 0)
+Overwrite(i, ls) == Do("overwrite", i, ls, 0)
+Clear(i) == Do("clear", i, NoLines, 0)
+ClearN(i, n) == Do("clearn", i, NoLines, n)
 
 \* ------------------------------------------------------------------ A-layer coherence (not part of the property)
 Coherent == ansi => /\ Len(secs) = Len(content)
